@@ -396,3 +396,8 @@ func vpH_C01_gs_forward_step() { vpH_C06_gs_rpcs() }
 // announce_retry: "once interest announcements have propagated" - an announcement that hit a full queue is retried, for
 // subscriptions and for relay-only interest alike.
 func vpH_C01_announce_retry() { vpH_C05_retry() }
+
+// interest_refcount: "after any subscribe, unsubscribe ... churn that leaves the overlay connected": a node stays an
+// announced overlay member exactly while it holds a subscription OR a relay reference - cancelling the last subscription
+// of a node that still relays must not withdraw it from the overlay (= C05 refcount, step-inductive).
+func vpH_C01_interest_refcount() { vpH_C05_refcount() }
